@@ -88,6 +88,9 @@ func (r *ResponseRecorder) Write(buf []byte) (int, error) {
 // recorded so far (200 if none was set), so a later WriteHeader does not change
 // what the client received and must not change the recorded status either.
 func (r *ResponseRecorder) Flush() {
+	if !r.wroteHeader && r.status >= 100 && r.status <= 199 && r.status != http.StatusSwitchingProtocols {
+		r.status = http.StatusOK // only informational headers so far: this flush sends the implicit 200
+	}
 	r.wroteHeader = true
 	r.ResponseWriterWrapper.Flush()
 }
